@@ -166,7 +166,7 @@ class Ctx:
         if key in self._bins:
             return self._bins[key]
         out = os.path.join(self.tmp, (name or pkg.replace("/", "_").strip("._")) + ("_race" if race else ""))
-        prepare_harness()
+        hdir = self.harness_dir()
         args = ["go", "build", "-o", out]
         if tags:
             args += ["-tags", tags]
@@ -175,12 +175,30 @@ class Ctx:
         if overlay:
             args += ["-overlay", overlay]
         args.append(pkg)
-        p = subprocess.run(args, cwd=HARNESS, env=goenv(), stdout=subprocess.PIPE,
+        p = subprocess.run(args, cwd=hdir, env=goenv(), stdout=subprocess.PIPE,
                            stderr=subprocess.STDOUT, text=True)
         if p.returncode != 0:
             raise Infra("go build %s failed:\n%s" % (pkg, p.stdout[-4000:]))
         self._bins[key] = out
         return out
+
+    def harness_dir(self):
+        """/verif/harness, or (when VERIF_REPO points at a scratch copy of the repository) a private
+        copy of it whose replace directive points there - so seeded changes can be tested without
+        touching /repo."""
+        prepare_harness()
+        if os.path.realpath(REPO) == "/repo":
+            return HARNESS
+        d = os.path.join(self.tmp, "harness")
+        if not os.path.exists(d):
+            shutil.copytree(HARNESS, d)
+            gm = os.path.join(d, "go.mod")
+            with open(gm) as f:
+                t = f.read()
+            t = t.replace("=> /repo", "=> " + os.path.realpath(REPO))
+            with open(gm, "w") as f:
+                f.write(t)
+        return d
 
     def run(self, argv, input=None, timeout=600, env=None, cwd=None, check=True):
         e = goenv(env)
